@@ -307,7 +307,7 @@ pub fn main(args: &util::Args) {
     // ---- minimised past failures kept under /verif/corpus
     {
         // (not C04 / C12 / C20: those hold crash, hang and malformed-input witnesses)
-        let subs: Vec<_> = ["C01", "C01pipe", "C02", "C03", "C05", "C06", "C07", "C08", "C09", "C10", "C18", "DCE", "GOCOMP"]
+        let subs: Vec<_> = ["C01", "C01pipe", "C02", "C03", "C05", "C06", "C07", "C08", "C09", "C10", "C17", "C18", "DCE", "GOCOMP"]
             .iter()
             .map(|s| util::verif_root().join("corpus").join(s))
             .filter(|p| p.is_dir())
